@@ -1,12 +1,14 @@
-# Both targets link a second object compiled from source/encoding.c WITHOUT USE_SIMD_ENCODING (symbols renamed pt_*): the
-# portable base64 code next to the default build, which takes the AVX2 path on this CPU.
+# c05_base64hex links a second object compiled from source/encoding.c WITHOUT USE_SIMD_ENCODING (symbols renamed pt_*): the
+# portable base64 code next to the default build, which takes the AVX2 path on this CPU.  c05_utf8 does not (the UTF-8 code
+# has a single implementation; and only one target of a plan may use portable_encoding: ./check builds the targets of a plan
+# in parallel threads and two simultaneous build_portable_encoding() calls collide on their pid-named temporary file).
 # ASAN_OPTIONS as for C16: the harnesses allocate an exact-size heap block per library call (so that an over-read is an
 # ASan report); with the default allocation-stack recording rapidcheck's deep, ever-different stacks make every worker
 # grow by several kB per case, which a thorough run cannot afford.
 _C05_ENV = {"ASAN_OPTIONS": "detect_leaks=0:abort_on_error=1:allocator_may_return_null=1:detect_stack_use_after_return=0:"
                             "handle_abort=0:malloc_context_size=0:quarantine_size_mb=16"}
 rc_target("c05_base64hex", flavour="asan", portable_encoding=True, env=_C05_ENV)
-rc_target("c05_utf8", flavour="asan", portable_encoding=True, env=_C05_ENV)
+rc_target("c05_utf8", flavour="asan", env=_C05_ENV)
 plan("C05", [T("c05_base64hex", 20000, 200000), T("c05_utf8", 30000, 300000)], min_nt=29000,
      rule="base64/hex: an input of >=25 bytes (>32 characters for decode), or a decode text whose mutation lies in the final quantum, or a "
           "256-value sweep of one final-quantum position; UTF-8: a generated cut point inside a multi-byte sequence",
